@@ -340,4 +340,34 @@ def rule_e(ctx: Ctx) -> None:
     derived_ok(ctx, 'C07.e')
 
 
-RULES = [rule_a, rule_b, rule_c, rule_d, rule_e]
+def rule_f(ctx: Ctx) -> None:
+    """A member of a substitution group declared without a type has the type of its head - a property of the declaration, whether or not the
+    head can be substituted in instances.  In _parse_substitution_group the inheritance `self._set_type(head_element.type)` therefore lies on
+    the way to every exit taken for a resolved head, including the early one for block="substitution"."""
+    rule = 'C07.f'
+    f = ctx.idx.method('xmlschema.validators.elements.XsdElement', '_parse_substitution_group')
+    ctx.analysed(f.qualname)
+    g = cfg_of(ctx, f)
+    inh = [x for x in g.nodes if x.kind == 'if' and "'type' not in self.elem.attrib" in text(x.ast.test) and 'XSD_ANY_TYPE' in text(x.ast.test)]
+    sets = [n for n, c in call_nodes(g, lambda c: text(c.func) == 'self._set_type' and c.args and text(c.args[0]) == 'head_element.type')]
+    if len(inh) != 1 or not sets:
+        raise AnalysisError(f'UNRECOGNISED-IDIOM {rule}: type inheritance in {f.qualname}')
+    # exits of the function that are taken with a resolved head element: returns control dependent on a test of head_element (other than the tuple / circularity check)
+    early = []
+    for r in g.nodes:
+        if r.kind != 'return':
+            continue
+        gs = guards(ctx, f, r)
+        if any('head_element.block' in t and lab == 'T' for t, lab in gs):
+            early.append(r)
+    ctx.floor(rule, 'early exits for a head that blocks substitution', len(early), 1)
+    dom = g.dominators(kinds='nTF')
+    for r in early:
+        ok = inh[0] in dom[r]
+        ctx.ob(rule, '_parse_substitution_group: the untyped member inherits the type of its head before the exit for block="substitution"', f.loc(r.ast), ok,
+               '' if ok else 'the function returns before the inheritance test: <xs:element name="B" substitutionGroup="A"/> with A: xs:integer block="substitution" keeps '
+               'xs:anyType and <B>abc</B> is valid', key=f'{f.qualname}|inherit-before-block-exit')
+    ctx.explain('C07.f: dominance - the test that gives an untyped member the type of its head dominates the return taken when the head blocks substitution.')
+
+
+RULES = [rule_a, rule_b, rule_c, rule_d, rule_e, rule_f]
